@@ -385,3 +385,91 @@ Proof.
   apply (proj1 grammar_values_wf _ _ Hv).
   apply units_app in Hu as [_ Hu]. now apply units_app in Hu as [Hu _].
 Qed.
+
+(* ------------------------------------------------------------------ *)
+(* 15.12.2 Walk over an array reads the length once: whatever the reviver does
+   to its holder (push, pop, truncate, unshift: revivers 8-12), it is called
+   for exactly the indices 0 .. len-1 of the original array, in order, and then
+   for the array itself.  Stated for arrays of primitives. *)
+Definition leaf (x : ov) : bool := match x with OArr _ | OObj _ => false | _ => true end.
+
+Lemma rwalk_leaf id f k x : leaf x = true -> rwalk id (S f) k x = ([(k, x)], rev_fun id k x).
+Proof. destruct x; intros H; try discriminate; reflexivity. Qed.
+
+Lemma rev_fun_leaf id k x : leaf x = true -> leaf (rev_fun id k x) = true.
+Proof.
+  intros H. unfold rev_fun.
+  repeat match goal with |- context [if ?b then _ else _] => destruct b end;
+    destruct x; try discriminate; reflexivity.
+Qed.
+
+Lemma leaves_firstn n a : forallb leaf a = true -> forallb leaf (firstn n a) = true.
+Proof.
+  revert a; induction n as [|n IH]; intros [|x a] H; cbn in *; auto.
+  apply andb_true_iff in H as [-> H]. cbn. auto.
+Qed.
+Lemma leaves_removelast a : forallb leaf a = true -> forallb leaf (removelast a) = true.
+Proof.
+  induction a as [|x a IH]; intros H; [reflexivity|]. cbn [forallb] in H.
+  apply andb_true_iff in H as [Hx H]. cbn [removelast]. destruct a; [reflexivity|].
+  cbn [forallb]. rewrite Hx. cbn. auto.
+Qed.
+Lemma leaves_eff id k a : forallb leaf a = true -> forallb leaf (rev_eff id k a) = true.
+Proof.
+  intros H. unfold rev_eff.
+  repeat match goal with |- context [if ?b then _ else _] => destruct b end;
+    auto using leaves_firstn, leaves_removelast; try (rewrite forallb_app, H; reflexivity);
+    try (cbn; exact H).
+Qed.
+Lemma leaf_get a i : forallb leaf a = true -> leaf (arr_get a i) = true.
+Proof.
+  unfold arr_get. revert i; induction a as [|x a IH]; intros [|i] H; cbn in *; auto.
+  - apply andb_true_iff in H as [Hx _]. destruct x; auto.
+  - apply andb_true_iff in H as [_ H]. apply (IH i H).
+Qed.
+Lemma leaves_set a : forall i x, forallb leaf a = true -> leaf x = true -> forallb leaf (arr_set a i x) = true.
+Proof.
+  induction a as [|y a IH]; intros i x H Hx.
+  - induction i as [|i IHi]; cbn; [now rewrite Hx | exact IHi].
+  - cbn [forallb] in H. apply andb_true_iff in H as [Hy H].
+    destruct i; cbn; [now rewrite Hx, H | rewrite Hy; cbn; auto].
+Qed.
+Lemma leaves_del a : forall i, forallb leaf a = true -> forallb leaf (arr_del a i) = true.
+Proof.
+  induction a as [|y a IH]; intros i H; [destruct i; reflexivity|].
+  cbn [forallb] in H. apply andb_true_iff in H as [Hy H].
+  destruct i; cbn; [exact H | rewrite Hy; cbn; auto].
+Qed.
+
+Theorem rwalk_array_length_read_once : forall id f key l,
+  forallb leaf l = true ->
+  map fst (fst (rwalk id (S (S f)) key (OArr l)))
+  = map (fun i => dec (Z.of_nat i)) (seq 0 (length l)) ++ [key].
+Proof.
+  intros id f key l Hl.
+  set (step := fun (acc : list (list Z * ov) * list ov) (i : nat) =>
+                 let '(lg, a) := acc in
+                 let k := dec (Z.of_nat i) in
+                 let '(lg1, x') := rwalk id (S f) k (arr_get a i) in
+                 let a1 := rev_eff id k a in
+                 (lg ++ lg1, if is_undef x' then arr_del a1 i else arr_set a1 i x')).
+  assert (H : forall is lg a, forallb leaf a = true ->
+            map fst (fst (fold_left step is (lg, a))) = map fst lg ++ map (fun i => dec (Z.of_nat i)) is).
+  { induction is as [|i is IH]; intros lg a Ha; cbn [fold_left map]; [now rewrite app_nil_r|].
+    assert (E : step (lg, a) i =
+                (lg ++ [(dec (Z.of_nat i), arr_get a i)],
+                 if is_undef (rev_fun id (dec (Z.of_nat i)) (arr_get a i))
+                 then arr_del (rev_eff id (dec (Z.of_nat i)) a) i
+                 else arr_set (rev_eff id (dec (Z.of_nat i)) a) i (rev_fun id (dec (Z.of_nat i)) (arr_get a i)))).
+    { unfold step. rewrite rwalk_leaf by now apply leaf_get. reflexivity. }
+    rewrite E, IH.
+    - rewrite map_app. cbn [map fst]. now rewrite <- app_assoc.
+    - destruct (is_undef _); [apply leaves_del | apply leaves_set];
+        auto using leaves_eff, rev_fun_leaf, leaf_get. }
+  change (rwalk id (S (S f)) key (OArr l))
+    with (let '(log, v') := (let '(lg, out) := fold_left step (seq 0 (length l)) ([], l) in (lg, OArr out)) in
+          (log ++ [(key, v')], rev_fun id key v')).
+  specialize (H (seq 0 (length l)) [] l Hl).
+  destruct (fold_left step (seq 0 (length l)) ([], l)) as [lg out]. cbn [fst] in *.
+  rewrite map_app, H. reflexivity.
+Qed.
